@@ -235,7 +235,15 @@ def _case(draw, max_lines=30):
             p2 = draw(st.sampled_from(pool))
             v2 = draw(S.j9_value(plain=p2["plain"])) if p2["cls"] == "j9" else p2["value"]
             form = draw(st.sampled_from(_FORMS2))
-            lines.append({"form": form.id, "head": draw(st.integers(0, len(form.heads) - 1)), "trail": draw(st.integers(0, len(form.trails) - 1)), "enc": ["", ""], "lead": draw(st.sampled_from(["", " "])), "values": [v, v2], "clss": [c, p2["cls"]]})
+            c2 = p2["cls"]
+            if "exact" in form.text_kw:
+                # forms with their own value syntax (AWS keys: 32 characters): two keys, sometimes the same one
+                v = draw(S.text_value(**form.text_kw))
+                v2 = v if draw(st.integers(0, 3)) == 0 else draw(S.text_value(**form.text_kw))
+                c = c2 = "text"
+            elif c not in form.classes or c2 not in form.classes or "\\" in v + v2:
+                form = draw(st.sampled_from([f for f in _FORMS2 if len(f.classes) == len(S.CLASSES) and f.enclose]))
+            lines.append({"form": form.id, "head": draw(st.integers(0, len(form.heads) - 1)), "trail": draw(st.integers(0, len(form.trails) - 1)), "enc": ["", ""], "lead": draw(st.sampled_from(["", " "])), "values": [v, v2], "clss": [c, c2]})
             continue
         forms = [f for f in _FORMS1 if c in f.classes and (f.reject is None or not f.reject(v)) and (":" not in v or "alphabet_mid" not in f.text_kw) and ("\\" not in v or not any('"' in h for h in f.heads))]
         form = draw(st.sampled_from(forms))
